@@ -145,6 +145,18 @@ void run_typed(const Execution &ex) {
     // probe keys are built once per harness process (std::regex construction dominates otherwise)
     warm(ex);
     std::vector<RoutingKey> &probe_keys = g_probe_keys;
+    // every second execution hands its patterns over in ONE long-lived RoutingKey object that is copy-assigned before each call
+    // (a "current filter" variable: the levels, and the std::regex objects in them, keep their addresses while their content changes);
+    // the other executions use a fresh temporary per call
+    bool reuse_key = std::hash<std::string>{}(ex.id) % 2 == 0;
+    RoutingKey cur_key = make_key("-");
+    auto pattern = [&](const std::string &p) -> const RoutingKey & {
+        static thread_local std::unique_ptr<RoutingKey> tmp;
+        tmp = std::make_unique<RoutingKey>(make_key(p));
+        if (!reuse_key) return *tmp;
+        cur_key = static_cast<const RoutingKey &>(*tmp);
+        return cur_key;
+    };
     // the match table the specification assumes, as std::regex_match sees it (first execution of a shard only)
     if (ex.cfg.num("table", 0)) {
         std::string s = "\"e\":\"MatchTable\",\"t\":{";
@@ -184,12 +196,12 @@ void run_typed(const Execution &ex) {
             raws.at((int) st.num("id"))->invalidate();
         } else if (op == "Notify") {
             try {
-                ret = (long) Sig::notify(*router, make_key(st.str("p")), (int) st.num("a", 1));
+                ret = (long) Sig::notify(*router, pattern(st.str("p")), (int) st.num("a", 1));
             } catch (const CallbackThrew &) {
                 op = "NotifyThrew";   // reported under this name: the deliveries made before the exception are in the log
             }
         } else if (op == "Shrink") {
-            router->shrink(make_key(st.str("p")));
+            router->shrink(pattern(st.str("p")));
         } else {
             out().line("\"e\":\"BadOp\",\"op\":%s", jstr(op).c_str());
         }
